@@ -67,7 +67,11 @@ impl<T> InnerQueue<T> {
         match self.queue.pop() {
             Some(data) => Ok(data),
             None => match self.tx_ports.load(Ordering::Acquire) {
-                0 => Err(RecvTimeoutError::Disconnected),
+                0 => {
+                    // give back the disconnect signal for other receivers
+                    self.sem.post();
+                    Err(RecvTimeoutError::Disconnected)
+                }
                 _n => unreachable!("mpmc recv found no data"),
             },
         }
@@ -84,7 +88,12 @@ impl<T> InnerQueue<T> {
         match self.queue.pop() {
             Some(data) => Ok(data),
             None => match self.tx_ports.load(Ordering::Acquire) {
-                0 => Err(TryRecvError::Disconnected),
+                0 => {
+                    // give back the disconnect signal for other receivers
+                    // that may already decide to wait on the semphore
+                    self.sem.post();
+                    Err(TryRecvError::Disconnected)
+                }
                 _ => unreachable!("mpmc try_recv found no data"),
             },
         }
